@@ -11,6 +11,8 @@ pub mod c07;
 pub mod c01m;
 pub mod c01;
 pub mod c15;
+pub mod c16;
+pub mod c17;
 pub mod evs;
 pub mod fraggen;
 pub mod ost;
@@ -32,6 +34,8 @@ pub fn run_property<C: Codec>(id: &str, tier: Tier) -> i32 {
         "C07" => c07::run::<C>(tier),
         "C01" => c01::run::<C>(tier),
         "C15" => c15::run::<C>(tier),
+        "C16" => c16::run::<C>(tier),
+        "C17" => c17::run::<C>(tier),
         _ => {
             println!("INCONCLUSIVE unknown property {id}");
             2
@@ -47,6 +51,11 @@ pub fn replay<C: Codec>(text: &str) -> i32 {
             return 2;
         }
     };
+    if head.check.starts_with("exhaustive") {
+        // an exhaustive sub-domain is deterministic: replaying it means enumerating it again
+        println!("replaying an exhaustive sub-domain: re-running the quick check of {}", head.property);
+        return run_property::<C>(&head.property, Tier::Quick);
+    }
     let known = super::engine::load_known::<C>(&head.property);
     let r = match head.property.as_str() {
         "C03" => c03::replay::<C>(text, &known),
@@ -61,6 +70,8 @@ pub fn replay<C: Codec>(text: &str) -> i32 {
         "C07" => c07::replay::<C>(text, &known),
         "C01" => c01::replay::<C>(text, &known),
         "C15" => c15::replay::<C>(text, &known),
+        "C16" => c16::replay::<C>(text, &known),
+        "C17" => c17::replay::<C>(text, &known),
         _ => None,
     };
     match r {
